@@ -18,7 +18,7 @@ PROPERTY_UNITS = {
     "C08": ["V1_runtime", "V3_simple", "R_refuter"],
     "C09": ["K1_numbers", "V1_runtime"],
     "C10": ["V1_runtime", "R_refuter"],
-    "C11": ["K1_numbers", "V1_runtime", "V3_simple", "R_refuter"],
+    "C11": ["K1_numbers", "V1_runtime", "V2_basic", "V3_simple", "R_refuter"],
     "C12": ["K1_numbers", "V1_runtime", "R_refuter"],
     "C15": ["V2_basic", "V3_simple"],
     "C16": ["V1_runtime", "V2_basic", "V3_simple", "R_refuter"],
@@ -360,7 +360,7 @@ NOT_DECIDED = {
     "C08": "two closure statements of type_cast (Concatenation -> List) are cut out and assumed; the data implementations' own host plumbing",
     "C09": "f64::powf and f64 % f64 (libm, unmodelled by CBMC); float * and / exactness and in-range float // (tier deep, not registered); integer ** exactness only in the thorough tier",
     "C10": "that `build` places right operands / arms behind the jumps; evaluation counts over whole programs",
-    "C11": "slice operands (frame only); that the data implementations' iterators yield the sequences the trait contract names (proved for SimpleGarnishData's list-item and concatenation iterators asked for everything, unit V3: insertion order / flat item sequence; Basic's, and the text/byte/symbol-list iterators of both, are assumed); termination of the work list; equivalence-relation laws of the unbounded relation are by reading of `deq`, not a machine-checked lemma",
+    "C11": "slice operands (frame only); that the data implementations' iterators yield the sequences the trait contract names (proved for SimpleGarnishData's list-item and concatenation iterators asked for everything, unit V3: insertion order / flat item sequence; for BasicGarnishData's list-item, char-list and byte-list iterators, unit V2: the requested window in order, the element conversion of the two text iterators being an assumed stand-in; Basic's concatenation and symbol-list iterators and Simple's text iterators are assumed); termination of the work list; equivalence-relation laws of the unbounded relation are by reading of `deq`, not a machine-checked lemma",
     "C12": "slices of char/byte lists; chars and bytes are ordered by the data object's own PartialOrd (assumed to be the natural order)",
     "C15": "SimpleGarnishData's interning adders (HashMap + SipHash; symbols, text, byte lists): not claimed; Basic's end_list, Basic's text/symbol adders and conversions other than add_byte_list_from",
     "C16": "Basic's end_list (so the step from add_to_list to the list-cell invariant is assumed for Basic; Simple's end_list is proved); the data implementations' iterators (get_list_item_iter, get_concatenation_iter); symbol lookup in a Slice of a Concatenation (assumed stand-in); numeric indexing of concatenations is under frame contracts only",
